@@ -53,8 +53,11 @@ static const char* kArch[] = {"x64", "a64"};
 static const char* kEm[] = {"asm", "builder"};
 static const char* kHd[] = {"none", "rec", "throw"};
 // decorations: 0 none, 1 option bit (x86: LOCK), 2 inline comment, 3 extra register, 4 option + comment + extra register
-static const char* kDecor[] = {"plain", "option", "comment", "extra", "all"};
-static const int kNumDecor = 5;
+// 5..8: calls that create fixups / relocations / an address table (label L is created in the prelude and bound at the end):
+//   5 jump to the unbound label, 6 the same with an inline comment, 7 x64: call to an absolute address (relocation + address-table
+//   slot) / a64: adr x1, L, 8 embed_label(L, 8) (relocation + fixup)
+static const char* kDecor[] = {"plain", "option", "comment", "extra", "all", "jump-to-label", "jump-to-label+comment", "abs-call|adr", "embed_label"};
+static const int kNumDecor = 9;
 
 struct Case {
   int arch, em, hd, r, cls; long k; int d[3];
@@ -66,7 +69,7 @@ struct Case {
 
 struct World {
   CodeHolder code; x86::Assembler xa; a64::Assembler aa; x86::Builder xb; a64::Builder ab;
-  Thrower th; Recorder rc; BaseEmitter* e = nullptr;
+  Thrower th; Recorder rc; BaseEmitter* e = nullptr; Label L;
   bool init(const Case& cs) {
     if (code.init(Environment(cs.arch == AX64 ? Arch::kX64 : Arch::kAArch64)) != Error::kOk) return false;
     e = cs.em == E_ASM ? (cs.arch == AX64 ? (BaseEmitter*)&xa : (BaseEmitter*)&aa) : (cs.arch == AX64 ? (BaseEmitter*)&xb : (BaseEmitter*)&ab);
@@ -84,7 +87,13 @@ static void decorate(BaseEmitter* e, int arch, int d) {
   if (d == 3 || d == 4) e->set_extra_reg(arch == AX64 ? Reg(x86::k3) : Reg(a64::x7));
 }
 // instruction i of the program, decoration d (the instruction is chosen so that the decoration is legal and changes the bytes on x86)
-static Error issue(BaseEmitter* e, int arch, int i, int d) {
+static Error issue(BaseEmitter* e, int arch, int i, int d, const Label& L) {
+  if (d >= 5) {
+    if (d == 6) e->set_inline_comment("one-shot comment");
+    if (d == 5 || d == 6) return arch == AX64 ? e->emit(x86::Inst::kIdJmp, L) : e->emit(a64::Inst::kIdB, L);
+    if (d == 7) return arch == AX64 ? e->emit(x86::Inst::kIdCall, Imm(0x123456789000ull + uint64_t(i) * 16)) : e->emit(a64::Inst::kIdAdr, a64::x1, L);
+    return e->embed_label(L, arch == AX64 ? 8 : 8);
+  }
   decorate(e, arch, d);
   if (arch == AX64) {
     if (d == 3 || d == 4) {
@@ -110,6 +119,8 @@ static bool is_decor_valid(int arch, int d) {
 // prelude: one nop to create the buffer, then data so that exactly r bytes remain
 static bool prelude(World& w, const Case& cs) {
   BaseEmitter* e = w.e;
+  w.L = e->new_label();
+  if (!w.L.is_valid()) return false;
   if (cs.arch == AX64) { if (e->emit(x86::Inst::kIdNop) != Error::kOk) return false; } else { if (e->emit(a64::Inst::kIdNop) != Error::kOk) return false; }
   if (cs.em == E_ASM) {
     size_t cap = w.code.text_section()->buffer().capacity(), sz = w.code.text_section()->buffer_size();
@@ -125,6 +136,8 @@ static bool prelude(World& w, const Case& cs) {
 
 static std::string image(World& w, const Case& cs, bool& ok) {
   ok = true;
+  { Error be = Error::kOk; try { be = w.e->bind(w.L); } catch (std::exception&) { be = Error::kInvalidState; }
+    if (be != Error::kOk) { ok = false; return std::string("bind error ") + DebugUtils::error_as_string(be); } }
   if (cs.em == E_BUILDER) {
     BaseBuilder* b = static_cast<BaseBuilder*>(w.e);
     Error err = Error::kOk;
@@ -132,7 +145,10 @@ static std::string image(World& w, const Case& cs, bool& ok) {
     if (err != Error::kOk) { ok = false; return std::string("finalize error ") + DebugUtils::error_as_string(err); }
   }
   Section* t = w.code.text_section();
-  return vh::hex(t->data(), t->buffer_size());
+  std::string s = vh::hex(t->data(), t->buffer_size());
+  s += "|relocs=" + std::to_string(w.code.reloc_entries().size()) + "|unresolved=" + std::to_string(w.code.unresolved_fixup_count()) + "|labels=" + std::to_string(w.code.label_count());
+  for (RelocEntry* re : w.code.reloc_entries()) s += "|r" + std::to_string(int(re->reloc_type())) + "@" + std::to_string(re->source_section_id()) + "+" + std::to_string(re->source_offset()) + "=" + std::to_string(re->payload());
+  return s;
 }
 
 static std::string g_why, g_clause;
@@ -151,11 +167,11 @@ static int run_case(const Case& cs) {
     arm_fault(cs.cls, cs.k);
     for (int i = 0; i < 3; i++) {
       size_t size_before = w.code.text_section()->buffer_size();
-      size_t labels_before = w.code.label_count();
+      size_t labels_before = w.code.label_count(), relocs_before = w.code.reloc_entries().size(), fixups_before = w.code.unresolved_fixup_count();
       BaseNode* last_before = cs.em == E_BUILDER ? static_cast<BaseBuilder*>(w.e)->last_node() : nullptr;
       Error err = Error::kOk; bool thrown = false;
       int h_before = w.rc.n + w.th.n;
-      try { err = issue(w.e, cs.arch, i, cs.d[i]); } catch (std::exception&) { thrown = true; }
+      try { err = issue(w.e, cs.arch, i, cs.d[i], w.L); } catch (std::exception&) { thrown = true; }
       if (err == Error::kOk && !thrown) continue;
       disarm();
       c.n("failed_calls")++;
@@ -168,6 +184,8 @@ static int run_case(const Case& cs) {
       if (h_calls > 1) c.n("handler_invoked_more_than_once")++;
       if (w.code.text_section()->buffer_size() != size_before) FAIL("failed-call-appended", "the failed instruction %d changed the section size %zu -> %zu", i, size_before, w.code.text_section()->buffer_size());
       if (w.code.label_count() != labels_before) FAIL("failed-call-appended", "the failed instruction created a label");
+      if (w.code.reloc_entries().size() != relocs_before) FAIL("failed-call-left-relocation", "the failed call %d ('%s', %s) left %zu relocation entr%s in the CodeHolder", i, kDecor[cs.d[i]], cs.cls ? "arena request failed" : "heap request failed", w.code.reloc_entries().size() - relocs_before, w.code.reloc_entries().size() - relocs_before == 1 ? "y" : "ies");
+      if (w.code.unresolved_fixup_count() != fixups_before) FAIL("failed-call-left-fixup", "the failed call %d ('%s') changed unresolved_fixup_count() %zu -> %zu", i, kDecor[cs.d[i]], fixups_before, w.code.unresolved_fixup_count());
       if (cs.em == E_BUILDER && static_cast<BaseBuilder*>(w.e)->last_node() != last_before) FAIL("failed-call-appended", "the failed instruction %d left a node in the Builder", i);
       if (uint32_t(w.e->inst_options()) != 0 || w.e->has_extra_reg() || w.e->inline_comment() != nullptr)
         FAIL("one-shot-not-cleared", "after the failed instruction %d (%s, decoration '%s', %s) the emitter still holds one-shot state: options=%#x extra_reg=%d comment=%s",
@@ -186,7 +204,7 @@ static int run_case(const Case& cs) {
     World w;
     if (!w.init(t) || !prelude(w, t)) FAIL("harness", "twin init failed");
     for (int i = 0; i < 3; i++) {
-      Error err = i == failed_at ? probe(w.e, cs.arch) : issue(w.e, cs.arch, i, cs.d[i]);
+      Error err = i == failed_at ? probe(w.e, cs.arch) : issue(w.e, cs.arch, i, cs.d[i], w.L);
       if (err != Error::kOk) FAIL("harness", "twin instruction %d fails: %s", i, DebugUtils::error_as_string(err));
     }
     img_twin = image(w, t, ok_twin);
@@ -248,6 +266,6 @@ int main(int argc, char** argv) {
 done:
   c.n("states") = c.n("evaluations"); c.n("transitions") = c.n("evaluations"); c.n("traces") = c.n("evaluations"); c.n("distinct_nontrivial") = c.n("failed_calls");
   c.strs["bound_alloc_failure_leg"] = "x64 + AArch64 x {Assembler, Builder} x {no, recording, throwing} handler x buffer filler {growth at instruction 1, 2, 3, never} x "
-                                      "3 instructions x 5 decorations each (quick: at least one plain or all alike) x {heap, arena} x every failure position k";
+                                      "3 calls x 9 kinds each (5 one-shot decorations, jump to an unbound label +- comment, absolute call / adr, embed_label; quick: at least one plain or all alike) x {heap, arena} x every failure position k";
   return vh::finish();
 }
